@@ -346,6 +346,14 @@ class _Err(Exception):
         self.kind = kind
 
 
+class _Continue(Exception):
+    pass
+
+
+class _Break(Exception):
+    pass
+
+
 class _Spec:
     def __init__(self, ident, priorities, modifying=False, modifiable=()):
         self.ident, self.priorities, self.modifying, self.modifiable_props = ident, priorities, modifying, set(modifiable)
@@ -395,14 +403,51 @@ def _interp(stmts, env):
             return not ev(e.operand)
         if isinstance(e, ast.Call) and dotted(e.func) == "isinstance":
             return True
+        if isinstance(e, ast.Call) and isinstance(e.func, ast.Attribute) and e.func.attr in ("items", "keys", "values", "get", "setdefault") and not e.keywords:
+            recv = ev(e.func.value)
+            if isinstance(recv, dict):
+                args = [ev(a) for a in e.args]
+                if e.func.attr in ("items", "keys", "values") and not args:
+                    return list(getattr(recv, e.func.attr)())
+                if e.func.attr == "get" and 1 <= len(args) <= 2:
+                    return recv.get(*args)
+                if e.func.attr == "setdefault" and len(args) == 2:
+                    return recv.setdefault(*args)
+        if isinstance(e, (ast.Tuple, ast.List)):
+            return [ev(x) for x in e.elts]
         raise AnalysisError(f"shape not recognised: expression `{unparse(e)}` in the priority fold")
+
+    def bind(t, v):
+        if isinstance(t, ast.Name):
+            env[t.id] = v
+        elif isinstance(t, (ast.Tuple, ast.List)) and len(t.elts) == len(list(v)):
+            for tt, vv in zip(t.elts, list(v)):
+                bind(tt, vv)
+        else:
+            raise AnalysisError(f"shape not recognised: loop / assignment target `{unparse(t)}` in the priority fold")
 
     for s in stmts:
         if isinstance(s, ast.For):
             it = ev(s.iter)
             for x in list(it):
-                env[s.target.id] = x
-                _interp(s.body, env)
+                bind(s.target, x)
+                try:
+                    _interp(s.body, env)
+                except _Continue:
+                    continue
+                except _Break:
+                    break
+        elif isinstance(s, ast.Continue):
+            raise _Continue()
+        elif isinstance(s, ast.Break):
+            raise _Break()
+        elif isinstance(s, ast.Assign) and len(s.targets) == 1 and isinstance(s.targets[0], (ast.Name, ast.Tuple)):
+            bind(s.targets[0], ev(s.value))
+        elif isinstance(s, ast.Expr) and isinstance(s.value, ast.Call) and isinstance(s.value.func, ast.Attribute) and s.value.func.attr in ("setdefault", "update"):
+            if s.value.func.attr == "setdefault":
+                ev(s.value)
+            else:
+                raise AnalysisError(f"shape not recognised: statement `{norm_text(s, 60)}` in the priority fold")
         elif isinstance(s, ast.If):
             _interp(s.body if ev(s.test) else s.orelse, env)
         elif isinstance(s, ast.Raise):
@@ -469,7 +514,13 @@ def check_fold(ctx, R="C06.fold"):
 
     st0, st1 = _stores(loops[0]), _stores(loops[1])
     properties_d = [d for d, k in st0.items() if k == {"spec"} and d in dicts]
-    priorities_d = [d for d, k in st0.items() if k == {"priority"} and d in dicts]
+    # the priority table: the other dictionary the first loop writes (by item stores or setdefault)
+    touched0 = set(st0) | {
+        c.func.value.id
+        for c in ast.walk(loops[0])
+        if isinstance(c, ast.Call) and isinstance(c.func, ast.Attribute) and c.func.attr in ("setdefault", "update") and isinstance(c.func.value, ast.Name)
+    }
+    priorities_d = sorted(d for d in touched0 if d in dicts and d not in properties_d)
     modifying_d = [d for d, k in st1.items() if k == {"spec"} and d in dicts and d not in properties_d]
     if len(properties_d) != 1 or len(priorities_d) != 1 or len(modifying_d) != 1 or len(finals) != 1:
         raise AnalysisError("shape not recognised: the winner / priority / modifier dictionaries of _resolveSpecifiers")
@@ -652,7 +703,14 @@ def check_default_deps(ctx, R="C06.defaults"):
                 and isinstance(a.op, ast.BitOr)
                 and unparse(a.target) == acc
                 and unparse(a.value).endswith(".requiredProperties")
-                and any(isinstance(l, ast.For) and unparse(l.iter) == ovp for l in lib.ancestors(a))
+                and any(
+                    isinstance(l, ast.For)
+                    and unparse(l.iter) == ovp
+                    # ... of EVERY overridden default: nothing inside the loop may skip one (each of them is evaluated by the value)
+                    and not lib.enclosing_tests(a, l)
+                    and not any(isinstance(x, (ast.Continue, ast.Break)) for x in ast.walk(l))
+                    for l in lib.ancestors(a)
+                )
                 for a in walk_local(fn)
             )
             if starts and adds:
